@@ -1,22 +1,23 @@
 SPECIFICATION Spec
 CONSTANTS
-  Specs = {"r", "a", "b", "d", "j", "g", "m"}
+  Specs = {"r", "a", "b", "m"}
   WithItems = {"r", "a", "b"}
   Big = {"r"}
-  MaxRoot = 2
+  MaxRoot = 1
   MaxOther = 1
-  Forms = {"static", "dynamic", "type"}
-  Targets = {"a", "b", "j", "g", "m"}
-  Sp1 = {"j"}
-  MayMiss = {"m"}
-  MayRedirect = {}
+  Forms = {"static", "dynamic"}
+  Targets = {"a", "b", "m"}
+  Sp1 = {}
+  MayMiss = {"a", "m"}
+  MayRedirect = {"a"}
   MayErr = {}
   RootChoices <- Roots_r
-  SelfTypes <- ST_bd
+  SelfTypes <- ST_none
   TsTypes = {}
   JsonAttr = FALSE
   Emit = TRUE
-  Edits = FALSE
+  Edits = TRUE
 INVARIANT NoPendingInv
+INVARIANT C19ReloadInv
 INVARIANT EmitInv
 CHECK_DEADLOCK FALSE
